@@ -126,6 +126,17 @@ Section Analysis.
                  end in
     dict_of (combine names out).
 
+  (* "constraint c is requested": constraint_ids=None requests every constraint *)
+  Definition requested (ids : option (list Z)) (c : Z) : bool :=
+    match ids with None => true | Some l => zmem c l end.
+
+  (* the series computed from ONE row of the constraint matrix (what the code does for a selected row) *)
+  Definition series_row (tr : traj) (return_magnitudes : bool) (row : list F) : series :=
+    let re := lincomb (t_width tr) row (phasor_re tr) in
+    let im := lincomb (t_width tr) row (phasor_im tr) in
+    if a_abs_applied A return_magnitudes
+    then Mag (map (fun p => cabs (fst p) (snd p)) (combine re im)) else Cplx re im.
+
   (* the call as the code executes it: on a network that never had a constraint, constraint_matrix is None
      and `self.constraint_matrix[constraint_indices]` raises TypeError (None = raises) *)
   Definition constraint_currents_call (tr : traj) (return_magnitudes : bool) (ids : option (list Z))
